@@ -545,12 +545,27 @@ def rule_unreachable(run):
     run.end()
 
 
+def rule_getattr(run):
+    run.begin("C10.getattr", "getattr(obj, name) of a missing attribute is an error (AttributeError in CPython): the replacement never substitutes a default the caller did not pass", floor=1)
+    vb = run.idx.mod("cohdl/_compiler/frontend/_value_branch.py")
+    f = vb.func("getattr_replacement")
+    a = f.node.args
+    extra = a.args[2:]
+    dflts = a.defaults
+    bad = [src(d) for d in dflts if isinstance(d, ast.Constant) and d.value is None]
+    rets_default = [r for r in walk_local(f.node) if isinstance(r, ast.Return) and isinstance(r.value, ast.Name) and r.value.id in {x.arg for x in extra}]
+    ok = not (extra and bad and rets_default)
+    run.ob(ok, "getattr_replacement", file=vb.rel, line=f.node.lineno, detail="missing-attribute", expected="two-argument getattr of a missing attribute is rejected (an optional default needs a private sentinel, not None)",
+           found="ok" if ok else f"default parameter {extra[0].arg}=None is returned for missing attributes")
+    run.end()
+
+
 def rule_purge(run):
     from . import c11
     c11.rule_definition_purge(run)   # a stale cached definition makes a traced function see old globals (C10) and history (C11)
 
 
-RULES = [rule_tables, rule_dispatch, rule_compare_chain, rule_boolop, rule_fail_closed, rule_bind, rule_env, rule_builtins, rule_siblings, rule_unpack, rule_purge, rule_defaults, rule_comprehension, rule_unreachable]
+RULES = [rule_tables, rule_dispatch, rule_compare_chain, rule_boolop, rule_fail_closed, rule_bind, rule_env, rule_builtins, rule_siblings, rule_unpack, rule_purge, rule_defaults, rule_comprehension, rule_unreachable, rule_getattr]
 LEVEL = "other"
 EXPLANATION = (
     "The tracer re-implements CPython's evaluation rules by hand; decided here, for all programs, are the parts of "
